@@ -8,7 +8,11 @@
 (*   families of 1..MaxFam candidates of one arity (and of 1..2 from the   *)
 (*   wider pool) x every argument tuple of that arity x every registration *)
 (*   order,                                                                *)
-(*   plus mixed-arity families (arity filter).                             *)
+(*   plus mixed-arity families (arity filter),                             *)
+(*   plus focus groups: every family of 1..MaxFam candidates of a small    *)
+(*   themed pool (overloads that differ only in a concrete scalar          *)
+(*   parameter; REF / SIGNAL nested inside TSD / TSL / TSB patterns) x the *)
+(*   argument tuples that separate them.                                   *)
 (* Invariants: level B satisfies every level-A clause (AFail = ""), the    *)
 (* outcome is the same in every registration order, and the declarative    *)
 (* (A) and the sequential (B) matcher agree on every candidate.            *)
@@ -24,6 +28,7 @@ CONSTANTS UIdx,      \* arity-1 candidates used (indices into AllU)
           MaxFam,    \* largest family
           WideU, WideB,   \* wider pools (indices into AllU / AllB) from which families of one and two are drawn as well
           MixU, MixB, MixAU, MixAB,   \* mixed-arity families: one of MixU with one or two of MixB
+          Focus,     \* focus groups: set of [k |-> "u" | "b", c |-> indices into AllU / AllB, a |-> indices into ArgsU / ArgsB]
           Emit
 
 VARIABLES fam, ak, ai, res
@@ -53,6 +58,8 @@ Init == \/ \E f \in UpTo(UIdx, MaxFam) \cup UpTo(WideU, 2) : \E a \in AUIdx : In
         \/ \E f \in UpTo(GB, MaxFam) \cup UpTo({NU + i : i \in WideB}, 2) : \E a \in ABIdx : InitWith(f, "b", a)
         \/ \E f \in MixFams : \E a1 \in MixAU : InitWith(f, "u", a1)
         \/ \E f \in MixFams : \E a2 \in MixAB : InitWith(f, "b", a2)
+        \/ \E g \in Focus : \E f \in UpTo({(IF g.k = "u" THEN 0 ELSE NU) + i : i \in g.c}, MaxFam) : \E a3 \in g.a :
+               InitWith(f, g.k, a3)
 
 Payload == [fam  |-> [i \in 1..Len(fam) |-> AllC[fam[i]].l],
             ak   |-> ak, ai |-> ai,
@@ -113,10 +120,16 @@ QMU == {1, 2, 16, 18}
 QMB == {1, 3, 14}
 QMAU == {1, 9, 11}
 QMAB == {1, 4, 12}
+(* focus groups (all tiers) *)
+QFocus == {[k |-> "u", c |-> {2, 18, 19, 30}, a |-> {11, 22, 23}],                  \* scalar parameter: exact / converted / variable / promoted
+           [k |-> "b", c |-> {7, 15, 18, 29, 30, 32, 33}, a |-> {4, 5, 14, 18, 36}],  \* overloads that differ only in a concrete scalar parameter
+           [k |-> "u", c |-> {1, 11, 12, 25, 35, 36, 39}, a |-> {5, 6, 19, 24, 25}],   \* REF / SIGNAL nested in a TSD value
+           [k |-> "u", c |-> {1, 9, 10, 14, 37, 38, 40}, a |-> {3, 8, 16, 17, 26}],    \* ... in a TSL element / in bundle fields
+           [k |-> "b", c |-> {2, 12, 21, 31, 34}, a |-> {9, 23, 34, 35}]}             \* ... next to a parameter sharing the variable
 TU  == 1..NU
 TB  == 1..NB
-T3U == TU \ {5, 21, 22, 25, 26, 28, 30, 32, 33, 34}     \* families of three: 24 + 20 candidates
-T3B == TB \ {16, 17, 18, 21, 22, 24, 26, 28}
+T3U == TU \ ({5, 21, 22, 25, 26, 28, 30, 32, 33, 34} \cup 35..40)     \* families of three: 24 + 20 candidates
+T3B == TB \ ({16, 17, 18, 21, 22, 24, 26, 28} \cup 29..34)
 TAU == 1..Len(ArgsU)
 TAB == 1..Len(ArgsB)
 =============================================================================
